@@ -3,6 +3,7 @@
 package c08
 
 import (
+	"os"
 	"errors"
 	"fmt"
 	"math/big"
@@ -223,6 +224,24 @@ func (s *seqState) invariants(lastOp string) *violation {
 	if len(txs) != s.mp.Count() {
 		return &violation{"count-differs-from-list", fmt.Sprintf("Count=%d list=%d", s.mp.Count(), len(txs))}
 	}
+	seen := map[util.Uint256]bool{}
+	for _, tx := range txs {
+		seen[tx.Hash()] = true
+		if !s.mp.ContainsKey(tx.Hash()) {
+			return &violation{"listed-but-not-contained", short(tx)}
+		}
+	}
+	for _, k := range s.known {
+		if s.mp.ContainsKey(k.Hash()) && !seen[k.Hash()] {
+			return &violation{"contained-but-not-listed", short(k)}
+		}
+	}
+	return s.checkList(txs, lastOp)
+}
+
+// checkList checks the clauses that concern one listing of the pool (one
+// consistent snapshot: GetVerifiedTransactions copies under the pool's lock).
+func (s *seqState) checkList(txs []*transaction.Transaction, lastOp string) *violation {
 	if len(txs) > s.cap {
 		return &violation{"capacity-exceeded", fmt.Sprintf("len=%d cap=%d", len(txs), s.cap)}
 	}
@@ -234,20 +253,12 @@ func (s *seqState) invariants(lastOp string) *violation {
 			return &violation{"duplicate-entry", short(tx)}
 		}
 		seen[tx.Hash()] = true
-		if !s.mp.ContainsKey(tx.Hash()) {
-			return &violation{"listed-but-not-contained", short(tx)}
-		}
 		if i > 0 && less(prio(txs[i-1]), prio(tx)) {
 			return &violation{"order", fmt.Sprintf("pos %d %s before %s", i, short(txs[i-1]), short(tx))}
 		}
 		sums[payerOf(tx)] += tx.SystemFee + tx.NetworkFee
 		if id, ok := oracleID(tx); ok {
 			oracle[id]++
-		}
-	}
-	for _, k := range s.known {
-		if s.mp.ContainsKey(k.Hash()) && !seen[k.Hash()] {
-			return &violation{"contained-but-not-listed", short(k)}
 		}
 	}
 	for _, tx := range txs {
@@ -472,6 +483,10 @@ func TestCheck(t *testing.T) {
 	defer run.Finish()
 	run.Assume("pool observed only through exported API (GetVerifiedTransactions, Count, ContainsKey, HasConflicts, TryGetData, TryGetValue, Verify)")
 	run.Assume("balances change only together with RemoveStale, as on a node (refresh after a block)")
+	if os.Getenv("VERIF_PART") == "conc" {
+		concurrentPart(run)
+		return
+	}
 	nseq := ev.Pick(4000, 100000)
 	nops := ev.Pick(40, 60)
 	var wg sync.WaitGroup
